@@ -346,6 +346,30 @@ pub fn units() -> Vec<Unit> {
             ],
         },
         Unit {
+            // formatter attributes: what `fmt` does depends on the attribute table
+            name: "fmtattr",
+            toggles: vec![],
+            has_tests: false,
+            slots: vec![
+                Slot {
+                    path: "src/fmt_a.veryl",
+                    variants: vec![
+                        "module FmtA {\n    let _a : logic = 0;\n    let _bb: logic = 1;\n}\n",
+                        "#[fmt(skip)]\nmodule FmtA {\n  let   _a : logic   = 0;\n  let   _bb: logic   = 1;\n}\n",
+                        "module FmtA {\n    var _y: logic;\n    #[fmt(compact)]\n    inst u0: FmtSub #(\n        A: 1,\n        B: 2,\n    ) (\n        x: 1 ,\n        y: _y,\n    );\n}\n",
+                        "module FmtA {\n    var _y: logic;\n    inst u0: FmtSub #(\n        A: 1,\n        B: 2,\n    ) (\n        x: 1 ,\n        y: _y,\n    );\n}\n",
+                    ],
+                },
+                Slot {
+                    path: "src/fmt_sub.veryl",
+                    variants: vec![
+                        "module FmtSub #(\n    param A: u32 = 1,\n    param B: u32 = 1,\n) (\n    x: input  logic,\n    y: output logic,\n) {\n    assign y = x;\n}\n",
+                        "module FmtSub #(\n    param A: u32 = 1,\n    param B: u32 = 2,\n) (\n    x: input  logic,\n    y: output logic,\n) {\n    #[fmt(skip)]\n    assign   y   =   x;\n}\n",
+                    ],
+                },
+            ],
+        },
+        Unit {
             name: "tests",
             toggles: vec![],
             has_tests: true,
